@@ -280,6 +280,20 @@ def fam_snap(tier: str, rng: random.Random) -> Iterator[dict]:
                                     for s in p["snp"]:
                                         s["rv"] = cap_rv
                                     yield p
+    # captures without parameters (they read the world outside the call): evaluated at EVERY call, so two calls each
+    for kind in MEMBER_KINDS:
+        for nsnap in (1, 2):
+            for post_ok in (True, False):
+                for isasync in (False, True):
+                    for cap_rv in (["bool"] if not isasync else ["bool", "corofn"]):
+                        p = member_prog(kind, False, [[1]], 1, nsnap, [True], [post_ok], ["default"], False, isasync,
+                                        ncalls=2, tag="snap-noargs")
+                        if p is None:
+                            continue
+                        for s in p["snp"]:
+                            s["rv"] = cap_rv
+                        p["snp"][0]["noargs"] = 1
+                        yield p
     # sync callables given coroutine captures: ValueError instead of a bogus OLD
     for cap_rv in ("corofn", "coro"):
         for kind in ("func", "method"):
